@@ -21,9 +21,27 @@ func init() {
 			"parsers' separator constant — exactly what the call-arguments parser inverts. R2 (continuation names): when the Head is a constant it is the protocol name under which the emitting entry point is registered. R3 (index conventions): the minimum " +
 			"argument constants of parser and ledger agree with each other and with the ledger's guards (2; 4; multi pre-guard), the stride constants agree, and for each transfer function and execution side the argument positions the ledger uses for token, " +
 			"nonce, value/payload, destination, attached function and attached arguments — extracted as linear forms a·i + b·n + c over loop index and decoded count — equal those the parser binds to ESDTTokenName, ESDTTokenNonce, ESDTValue, RcvAddr, CallFunction " +
-			"and CallArgs. R4: the destination-side guards accept what the sender side emits (emitted argument count as a linear form versus the pre-guard). Does NOT decide: numeric equality of parsed values and ledger diffs; function names containing '@'.",
+			"and CallArgs. R4: the destination-side guards accept what the sender side emits (emitted argument count as a linear form versus the pre-guard). R5: destination-side rejections are not decided by argument content. R6: below the three transfer functions no error is dropped (shared with C17-R1): an accepted call has moved all it lists. Does NOT decide: numeric equality of parsed values and ledger diffs; function names containing '@'.",
 		Trusted: []string{"hex.EncodeToString / hex.DecodeString are inverse", "A-protomsg"},
-		Rules:   []func(*Ctx){c10r1, c10r3, c10r4, c10r5},
+		Rules:   []func(*Ctx){c10r1, c10r3, c10r4, c10r5, c10r6},
+	})
+}
+
+// c10r6: what the parser reports for an accepted transfer is what the ledger moved only if an accepted transfer has moved
+// everything: below the three transfer functions no error of a debit, credit or decode step is dropped (shared with C17-R1).
+func c10r6(c *Ctx) {
+	var roots []*ssa.Function
+	for _, name := range []string{"ESDTTransfer", "ESDTNFTTransfer", "MultiESDTNFTTransfer"} {
+		if r, ok := c.P.RegByName()[name]; ok && r.Entry != nil {
+			roots = append(roots, r.Entry)
+		}
+	}
+	below := map[string]bool{}
+	for fn := range c.P.ReachableFrom(roots) {
+		below[FuncName(fn)] = true
+	}
+	c.shareRule(c17r1, "C17-R1", "C10-R6", "an accepted transfer has moved every token it lists: no error below the transfer functions is dropped", func(o Oblig) bool {
+		return below[o.Func] || o.Kind == "anchor"
 	})
 }
 
@@ -861,7 +879,7 @@ func c10r5(c *Ctx) {
 	const rule = "C10-R5"
 	c.Rule(rule, "destination side: no rejection decided by the content of a forwarded argument", 2)
 	regs := c.P.RegByName()
-	for _, name := range []string{"ESDTTransfer", "ESDTNFTTransfer"} {
+	for _, name := range []string{"ESDTTransfer", "ESDTNFTTransfer", "SetUserName"} {
 		r, ok := regs[name]
 		if !ok || r.Entry == nil {
 			c.Anchor(rule, "registration of "+name)
@@ -875,17 +893,8 @@ func c10r5(c *Ctx) {
 			}
 			k := f.Key()
 			// argument content: "**IN.VMInput.Arguments[k]" outside of len(…)
-			i := strings.Index(k, "*"+argsT)
-			for i >= 0 {
-				pre := k[:i]
-				if !strings.HasSuffix(strings.TrimRight(pre, "*"), "len(") {
-					return k
-				}
-				j := strings.Index(k[i+1:], "*"+argsT)
-				if j < 0 {
-					break
-				}
-				i += 1 + j
+			if strings.Contains(k, "*"+argsT) {
+				return k // an element of the arguments (its bytes or its length); len(Arguments) itself is the count
 			}
 			return ""
 		}
@@ -893,7 +902,12 @@ func c10r5(c *Ctx) {
 		nexits, nseen := 0, 0
 		var walk func(e *Env, destOnly bool, depth int)
 		walk = func(e *Env, destOnly bool, depth int) {
+			// the continuing side: the transfers continue where the sender account is absent; SetUserName emits where the
+			// user's account is absent and continues where it is present
 			nilSnd := func(f Fact) bool { return !f.Lin && f.Pos && f.Atom == nilAtom(x.snd) }
+			if name == "SetUserName" {
+				nilSnd = func(f Fact) bool { return !f.Lin && !f.Pos && f.Atom == nilAtom(x.dst) }
+			}
 			for _, ret := range returnsOf(e.Fn) {
 				if !lastIsError(e.Fn) || isSuccessReturn(ret) && !(len(ret.Results) > 0 && errCallOf(retval(ret, len(ret.Results)-1)) != nil) {
 					continue
@@ -912,10 +926,16 @@ func c10r5(c *Ctx) {
 				nexits++
 				// propagated from a module helper that is handed argument content: look inside
 				if call := errCallOf(rv); call != nil {
-					if sc := call.Call.StaticCallee(); sc != nil && len(sc.Blocks) > 0 && c.P.InPkgs(sc, "builtInFunctions") && depth < 2 && !reachesInvoke(c.P, sc, "AccountDataHandler.SaveKeyValue", 0) && !reachesInvoke(c.P, sc, "AccountDataHandler.RetrieveValue", 0) {
-						walk(e.Sub(call, sc), false, depth+1)
+					if sc := call.Call.StaticCallee(); sc != nil && len(sc.Blocks) > 0 && c.P.InPkgs(sc, "builtInFunctions") {
+						if depth < 2 && !reachesInvoke(c.P, sc, "AccountDataHandler.SaveKeyValue", 0) && !reachesInvoke(c.P, sc, "AccountDataHandler.RetrieveValue", 0) {
+							walk(e.Sub(call, sc), false, depth+1)
+						}
+						continue
 					}
-					continue
+					if InvokeName(call) != "" {
+						continue // a failing dependency
+					}
+					// an error built on the spot (fmt.Errorf, errors.New): judged by the branch that leads here
 				}
 				// the branch that decided this exit
 				blk := ret.Block()
